@@ -4,6 +4,8 @@ import (
 	"go/ast"
 	"go/token"
 	"go/types"
+
+	"golang.org/x/tools/go/ssa"
 )
 
 func init() { register("C19", checkC19) }
@@ -26,7 +28,7 @@ func checkC19(c *Ctx) {
 			return
 		}
 		n++
-		c.checkForwarder("O1 forwarder", fwdSpec{fn: fn, list: lf, target: method, mode: fwdPlain, perIter: 1})
+		c.checkForwarderSSA("O1 forwarder", fwdSpec{fn: fn, list: lf, target: method, mode: fwdPlain, perIter: 1})
 	}
 	for _, m := range []string{"ReportCounter", "ReportGauge", "ReportTimer", "ReportHistogramValueSamples", "ReportHistogramDurationSamples"} {
 		plain("multi", m, "reporters")
@@ -45,48 +47,38 @@ func checkC19(c *Ctx) {
 			return
 		}
 		n++
-		res := c.checkForwarder("O1 forwarder", fwdSpec{fn: fn, list: lf, target: method, mode: fwdCollect, perIter: 1})
+		res := c.checkForwarderSSA("O1 forwarder", fwdSpec{fn: fn, list: lf, target: method, mode: fwdCollect, perIter: 1})
 		if !res.ok {
 			return
 		}
-		// O2: the returned composite stores the list in the field the matching method iterates
-		decl := c.funcDecl(fn)
-		info := c.typesInfo(fn)
+		// O2: the returned composite stores the collected list in the field the matching method iterates
 		key := c.fnKey(fn) + ":returns"
 		okRet := false
-		var pos token.Pos = fn.Pos()
-		for _, st := range decl.Body.List {
-			r, ok := st.(*ast.ReturnStmt)
-			if !ok || len(r.Results) != 1 {
-				continue
+		rt := c.named(pk, retType)
+		instrsOf(fn, func(in ssa.Instruction) {
+			st, ok := in.(*ssa.Store)
+			if !ok || res.collect == nil {
+				return
 			}
-			pos = r.Pos()
-			cl, ok := ast.Unparen(r.Results[0]).(*ast.CompositeLit)
-			if !ok {
-				continue
+			f, base := addrField(st.Addr)
+			if f == nil || f.Name() != retField || rt == nil || deref(base.Type()) != types.Type(rt) {
+				return
 			}
-			tv := info.Types[cl]
-			if nt, isN := tv.Type.(*types.Named); !isN || nt.Obj().Name() != retType {
-				continue
+			if stripConv(st.Val) == ssa.Value(res.collect) {
+				okRet = true
 			}
-			for i, e := range cl.Elts {
-				switch x := e.(type) {
-				case *ast.KeyValueExpr:
-					kid, _ := x.Key.(*ast.Ident)
-					vid, _ := x.Value.(*ast.Ident)
-					if kid != nil && vid != nil && kid.Name == retField && info.Uses[vid] == res.listVar {
-						okRet = true
-					}
-				case *ast.Ident:
-					// positional literal: field order of the struct
-					st, _ := tv.Type.Underlying().(*types.Struct)
-					if st != nil && i < st.NumFields() && st.Field(i).Name() == retField && info.Uses[x] == res.listVar {
-						okRet = true
-					}
+		})
+		// and that composite is what the method returns
+		retOK := false
+		for _, r := range returnsOf(fn) {
+			v := stripConv2(r.Results[0])
+			if mi, isMI := v.(*ssa.MakeInterface); isMI {
+				if rt != nil && deref(mi.X.Type()) == types.Type(rt) {
+					retOK = true
 				}
 			}
 		}
-		c.check(okRet, "O2 field-agreement", key, pos, "the collected handles are returned as "+retType+"."+retField,
+		c.check(okRet && retOK, "O2 field-agreement", key, fn.Pos(), "the collected handles are returned as "+retType+"."+retField,
 			"the handles collected from the children are not returned in "+retType+"."+retField+", the list the matching Report* method iterates: values reported through the handle do not reach the children")
 	}
 	collect("multiCached", "AllocateCounter", "reporters", "multiMetric", "counters")
@@ -99,9 +91,9 @@ func checkC19(c *Ctx) {
 	// capabilities conjunction
 	if fn := c.fn(pk, "multiBaseReporters", "Capabilities"); fn != nil {
 		n++
-		res := c.checkForwarder("O1 forwarder", fwdSpec{fn: fn, list: nil, target: "Capabilities", mode: fwdCapsAnd, perIter: 2})
+		res := c.checkForwarderSSA("O1 forwarder", fwdSpec{fn: fn, list: nil, target: "Capabilities", mode: fwdCapsAnd, perIter: 2})
 		if res.ok {
-			c.checkCapsInit("O1 caps-init", fn)
+			c.checkCapsConjunction("O1 caps-conjunction", fn, res)
 		}
 	} else {
 		c.missing("O1 forwarder", "multi.multiBaseReporters.Capabilities")
